@@ -45,6 +45,10 @@ def step (ledger : Bool) (st : St) (t : List String) : St × String :=
     match n.toNat? with
     | some k => ({ defs := [], kv := some (genesis k) }, "ok " ++ digest (genesis k))
     | none => (st, "bad-op")
+  | ["genesis", n, sync] =>   -- second field: fsync per commit on/off in the harness, not durable state
+    match n.toNat?, sync.toNat? with
+    | some k, some _ => ({ defs := [], kv := some (genesis k) }, "ok " ++ digest (genesis k))
+    | _, _ => (st, "bad-op")
   | "tx" :: rest =>
     match nats rest with
     | some (id :: kind :: ref0 :: outs :: key :: n :: ins) =>
@@ -74,6 +78,13 @@ def step (ledger : Bool) (st : St) (t : List String) : St × String :=
         if txs.length != k then (st, "bad-op")
         else showRes st (writeSnapshot kv { id := s, node := c, round := r, ts := ts, txs := txs } o)
       | "mark", [s] => showRes st (markSnap kv s)
+      | "fill", k :: t0 :: s0 :: d0 :: ts0 :: o0 :: m :: cs =>
+        if cs.length != m || m == 0 then (st, "bad-op")
+        else
+          match fill kv t0 s0 d0 ts0 o0 cs k 0 with
+          | (kv1, 0) => ({ st with kv := some kv1 }, "ok " ++ digest kv1)
+          | (kv1, 1) => ({ st with kv := some kv1 }, "reject " ++ digest kv1)
+          | (kv1, _) => ({ st with kv := some kv1 }, "panic")
       | "cut", [] => (st, cutLine ledger kv)
       | _, _ => (st, "bad-op")
     | _, _ => (st, "bad-op")
